@@ -15,7 +15,8 @@ from .verify import Verifier
 
 
 def _gen_one(job):
-    repo_dir, contract_modules, qualname, kind = job
+    repo_dir, contract_modules, qualname, kind = job[:4]
+    case_range = job[4] if len(job) > 4 else None
     t0 = time.time()
     for mname in contract_modules:
         importlib.import_module(mname)
@@ -30,7 +31,7 @@ def _gen_one(job):
         from .lemmas import gen_lemma
         rep = gen_lemma(REGISTRY, qualname)
     else:
-        rep = V.gen_function(qualname)
+        rep = V.gen_function(qualname, case_range)
     vcs = []
     if rep.status == "ok":
         for ob in rep.obligations:
@@ -74,13 +75,41 @@ def run(repo_dir, contract_modules, functions, lemmas=(), timeout_ms=20000, slow
         use_cvc5=True):
     """Returns (function reports, {clause: ClauseOutcome}, reach {function: bool})."""
     workers = workers or min(16, os.cpu_count() or 4)
-    jobs = [(repo_dir, list(contract_modules), f, "function") for f in functions] + \
-           [(repo_dir, list(contract_modules), l, "lemma") for l in lemmas]
+    for mname in contract_modules:
+        importlib.import_module(mname)
+    jobs = []
+    for f in functions:
+        c = REGISTRY.get(f)
+        n = len(c.cases_) if (c is not None and c.cases_) else 1
+        if n > 4:
+            step = max(1, n // 16)
+            for a in range(0, n, step):
+                jobs.append((repo_dir, list(contract_modules), f, "function", (a, min(n, a + step))))
+        else:
+            jobs.append((repo_dir, list(contract_modules), f, "function"))
+    jobs += [(repo_dir, list(contract_modules), l, "lemma") for l in lemmas]
     if len(jobs) <= 1:
         reports = [_gen_one(j) for j in jobs]
     else:
         with ProcessPoolExecutor(max_workers=min(workers, len(jobs))) as ex:
             reports = list(ex.map(_gen_one, jobs))
+    merged = {}
+    for rep in reports:
+        k = (rep["qualname"], rep["kind"])
+        if k not in merged:
+            merged[k] = rep
+        else:
+            m0 = merged[k]
+            m0["paths"] += rep["paths"]
+            m0["exit_paths"] += rep["exit_paths"]
+            m0["vcs"] += rep["vcs"]
+            m0["reach"] = (m0["reach"] + rep["reach"])[:8]
+            m0["assumptions"] = sorted(set(m0["assumptions"]) | set(rep["assumptions"]))
+            m0["dropped"] = sorted(set(m0["dropped"]) | set(rep["dropped"]))
+            m0["gen_s"] = max(m0["gen_s"], rep["gen_s"])
+            if rep["status"] != "ok" and m0["status"] == "ok":
+                m0["status"], m0["reason"] = rep["status"], rep["reason"]
+    reports = list(merged.values())
     sjobs, index = [], []
     for rep in reports:
         for name, kind, info, txt in rep["vcs"]:
